@@ -90,6 +90,9 @@ func Match(want, got Reply) (bool, string) {
 		if got.K != KArray && got.K != KMap {
 			return fail()
 		}
+		if (want.Proto == 2 && got.K != KArray) || (want.Proto == 3 && got.K != KMap) {
+			return false, fmt.Sprintf("connection speaks RESP%d but the reply is %s", want.Proto, got)
+		}
 		if len(got.A) != len(want.A) || len(got.A)%2 != 0 {
 			return fail()
 		}
